@@ -47,6 +47,7 @@ def run(tier, seed, replay=None):
             p = g.basic(nfam=rng.choice([1, 1, 2]), max_members=rng.choice([2, 3, 3]))
         if 2 <= len(p.blocks()) <= 6:
             bases.append(p)
+    bases += [g.assoc_subsets_plan() for _ in range(2 if tier == "quick" else 30)]
     # directional overlaps (one block's row strictly generalises another's: generic payload vs concrete, wildcard vs binding):
     # `is_overlapping` must see them whichever block comes first — every run, both orders
     for mode_ in ["general", "wild"] * (2 if tier == "quick" else 20):
